@@ -368,6 +368,31 @@ def r24(text, ctx):
     return text, n
 
 
+@rule('R31', '`C += 1` on the u64 entry counter C (rulearg R31 <ident>) -> `C = verif_count_succ(C)` (external_body wrapper around the same addition with the assumed spec '
+             '`r == c + 1`: machine arithmetic treated as mathematical for a counter that is incremented once per copied directory entry and cannot reach 2^64)')
+def r31(text, ctx):
+    names = ctx.rule_args.get('R31', [])
+    n = 0
+    for nm in names:
+        for lhs in ('(*%s)' % nm, nm):
+            pat = re.compile(r'(?<![A-Za-z0-9_\.])' + re.escape(lhs) + r'\s*\+=\s*1\s*;')
+            text, k = pat.subn('%s = verif_count_succ(%s);' % (lhs, lhs), text)
+            n += k
+    return text, n
+
+
+@rule('R32', '`P.len()` on a `&str` local P (rulearg R32 <ident>) -> `verif_str_len(P)` (external_body wrapper around the same call with the assumed spec '
+             '`r == encode_utf8(P@).len()`: std `str::len` is the length in bytes; vstd specifies it for ASCII strings only)')
+def r32(text, ctx):
+    names = ctx.rule_args.get('R32', [])
+    n = 0
+    for nm in names:
+        pat = re.compile(r'(?<![A-Za-z0-9_\.])' + re.escape(nm) + r'\.len\(\)')
+        text, k = pat.subn('verif_str_len(%s)' % nm, text)
+        n += k
+    return text, n
+
+
 @rule('R25', '`X.rsplitn(N, C)` -> `verif_rsplitn(&X, N, C)` returning std::vec::IntoIter<&str> (drops laziness of RSplitN; external_body with assumed spec rsplitn_spec)')
 def r25(text, ctx):
     n = 0
